@@ -426,6 +426,11 @@ class ExportSpec(SerdeSpec):
                 if tier == 'quick' and (which == 'dot' or (a, b) == ('edges', 'edges')):
                     continue         # two symbolic labels per vertex through DOT's special cases and the sort: 800 paths, minutes
                 ts.append(Task("to_%s N=2 cap=2 shapes=%s,%s labels=%s" % (which, a, b, lab), 'seir.pexport:ob_export', N=2, cap=2, shapes=[a, b], lab=lab, which=which, _weight=30))
+        # two edges of one vertex (possibly to the same target, labels in either order) with the cheap label kinds, in both tiers
+        # (seed S30 -- a dedup of label-adjacent edges to one target in to_dot() -- passed the quick tier before these were added)
+        for (a, b, lab) in (('edges', 'plain', 'alpha'), ('edges', 'plain', 'str1'), ('plain', 'edges', 'alpha')):
+            for which in ('xml', 'dot'):
+                ts.append(Task("to_%s N=2 cap=2 shapes=%s,%s labels=%s" % (which, a, b, lab), 'seir.pexport:ob_export', N=2, cap=2, shapes=[a, b], lab=lab, which=which, _weight=40))
         return ts
 
     def replay(s, path):
@@ -466,13 +471,19 @@ class Text20Spec(ExportSpec):
                 labs = PE.LABS if tier == 'thorough' else (PE.LABS[k % len(PE.LABS)], PE.LABS[(k + 3) % len(PE.LABS)])
                 k += 1
                 for lab in labs:
+                    # an index label prints as a decimal of 1..4 digits: every label forks four ways in core::fmt, a structure
+                    # with four edges 256 ways before the sort forks again (13 min per task).  Quick: indices below 100 for the
+                    # structures with more than two edges (two digit counts), below 1024 elsewhere and in the thorough tier.
+                    ne = sum(len(x) for x in PE.STRUCTS[st_name])
+                    amax = 100 if (tier == 'quick' and lab == 'alpha' and ne > 2) else 1 << 10
+                    sfx = (' (index < %d)' % amax) if (lab == 'alpha' and amax != 1 << 10) else ''
                     for start in range(3):
-                        ts.append(Task("inspect(%d) %s shapes=%s labels=%s" % (start, st_name, ','.join(shp), lab), 'seir.pexport:ob_text20', N=2, cap=3, struct=st_name, shapes=shp,
-                                       lab=lab, which='inspect', start=start, _weight=15 if lab == 'alpha' else 4))
-                        ts.append(Task("v_print(%d) %s shapes=%s labels=%s" % (start, st_name, ','.join(shp), lab), 'seir.pexport:ob_text20', N=2, cap=3, struct=st_name, shapes=shp,
-                                       lab=lab, which='v_print', start=start, _weight=15 if lab == 'alpha' else 2))
-                    ts.append(Task("Debug %s shapes=%s labels=%s" % (st_name, ','.join(shp), lab), 'seir.pexport:ob_text20', N=2, cap=3, struct=st_name, shapes=shp,
-                                   lab=lab, which='debug', _weight=20 if lab == 'alpha' else 5))
+                        ts.append(Task("inspect(%d) %s shapes=%s labels=%s%s" % (start, st_name, ','.join(shp), lab, sfx), 'seir.pexport:ob_text20', N=2, cap=3, struct=st_name, shapes=shp,
+                                       lab=lab, which='inspect', start=start, alpha_max=amax, _weight=15 if lab == 'alpha' else 4))
+                        ts.append(Task("v_print(%d) %s shapes=%s labels=%s%s" % (start, st_name, ','.join(shp), lab, sfx), 'seir.pexport:ob_text20', N=2, cap=3, struct=st_name, shapes=shp,
+                                       lab=lab, which='v_print', start=start, alpha_max=amax, _weight=15 if lab == 'alpha' else 2))
+                    ts.append(Task("Debug %s shapes=%s labels=%s%s" % (st_name, ','.join(shp), lab, sfx), 'seir.pexport:ob_text20', N=2, cap=3, struct=st_name, shapes=shp,
+                                   lab=lab, which='debug', alpha_max=amax, _weight=20 if lab == 'alpha' else 5))
         # an absent slot among the three (Debug must skip it; it is unreachable in 'chain' from 0 only if it is the last)
         for lab in (('greek2', 'alpha') if tier == 'quick' else PE.LABS):
             ts.append(Task("Debug no-edges shapes=plain,absent-stale,inline8 labels=%s" % lab, 'seir.pexport:ob_text20', N=2, cap=3, struct='no-edges',
